@@ -2016,7 +2016,23 @@ fn connect_phase(connack: &rc::Connack, auth: Option<&rc::Auth>, cut: Option<u16
         Some(a) => rc::Packet::Auth(a.clone()),
         None => rc::Packet::Connack(connack.clone()),
     };
-    let bytes = rc::encode(&pkt, &rc::Form::canonical());
+    // the properties in the order of the standard's table, reversed, or rotated: no order is
+    // prescribed
+    let hform = connack.reason as usize + connack.user_props.len() + connack.reason_string.as_ref().map(|s| s.len()).unwrap_or(0) + cut.unwrap_or(0) as usize;
+    let form = match hform % 3 {
+        0 => rc::Form::canonical(),
+        1 => rc::Form { order: (0u8..32).rev().collect(), short: false },
+        _ => rc::Form { order: vec![3, 1, 4, 1, 5, 9, 2, 6, 5, 3, 5, 8, 9, 7, 9, 3, 2, 3, 8], short: false },
+    };
+    let bytes = rc::encode(&pkt, &form);
+    // user properties are ordered: what was really sent (after the reordering) is what must come out
+    let (connack_sent, auth_sent) = match rc::decode_one(&bytes, rc::Dir::FromServer) {
+        Ok(rc::Packet::Connack(c)) => (c, None),
+        Ok(rc::Packet::Auth(a)) => (connack.clone(), Some(a)),
+        _ => (connack.clone(), auth.cloned()),
+    };
+    let connack = &connack_sent;
+    let auth = auth_sent.as_ref();
     let cut_at = cut.map(|c| (c as usize).min(bytes.len()));
     if w.conn_results.len() > base {
         return Some(Failure { sig: "C13/connect/returned-before-response".into(), msg: format!("{:?}", w.conn_results) });
@@ -2094,7 +2110,13 @@ fn connect_phase(connack: &rc::Connack, auth: Option<&rc::Auth>, cut: Option<u16
                         msg: format!("authorize() with {data_len} bytes of authentication data returned {:?} before the server answered", w.conn_results.last()),
                     });
                 }
-                w.reader.feed(rc::encode(&rc::Packet::Connack(connack.clone()), &rc::Form::canonical()));
+                let cbytes = rc::encode(&rc::Packet::Connack(connack.clone()), &form);
+                let connack_leg = match rc::decode_one(&cbytes, rc::Dir::FromServer) {
+                    Ok(rc::Packet::Connack(c)) => c,
+                    _ => connack.clone(),
+                };
+                let connack = &connack_leg;
+                w.reader.feed(cbytes);
                 settle(&mut w, &plan, false);
                 if let Some(p) = first_panic(&w) {
                     return Some(Failure { sig: format!("PANIC/{}", panic_sig(&p)), msg: p });
